@@ -151,7 +151,7 @@ func runC22Lost(c *Ctx, nm c22LostNames) {
 		}
 	}
 	t0 := time.Now()
-	e := c22NewEngine(c.P)
+	e := c22NewEngine(c.P, nm.nodeRel)
 	tSSA := time.Since(t0)
 	isNodeStruct := func(t types.Type) *types.Named {
 		nt, _ := c22NamedStruct(c22Deref(t))
